@@ -32,7 +32,7 @@ func (matcher *requestResponseMatcher) SetMaxTry(value int) {
 }
 
 func (matcher *requestResponseMatcher) registerRequest(key string, request *Request) *RequestResponsePair {
-	verifhook.Yield("match.req.pre")
+	verifhook.Yield("kafka.match.req.pre")
 	if response, found := matcher.openMessagesMap.LoadAndDelete(key); found {
 		// Check for a situation that only occurs when a Kafka broker is initiating
 		switch v := response.(type) {
@@ -41,13 +41,13 @@ func (matcher *requestResponseMatcher) registerRequest(key string, request *Requ
 		}
 	}
 
-	verifhook.Yield("match.req.mid")
+	verifhook.Yield("kafka.match.req.mid")
 	matcher.openMessagesMap.Store(key, request)
 	return nil
 }
 
 func (matcher *requestResponseMatcher) registerResponse(key string, response *Response) *RequestResponsePair {
-	verifhook.Yield("match.res.pre")
+	verifhook.Yield("kafka.match.res.pre")
 	try := 0
 	for {
 		try++
@@ -57,7 +57,7 @@ func (matcher *requestResponseMatcher) registerResponse(key string, response *Re
 		if request, found := matcher.openMessagesMap.LoadAndDelete(key); found {
 			return matcher.preparePair(request.(*Request), response)
 		}
-		verifhook.Yield("match.res.poll")
+		verifhook.Yield("kafka.match.res.poll")
 		time.Sleep(1 * time.Millisecond)
 	}
 }
